@@ -138,6 +138,7 @@ fn unwatch(path: &Path) -> bool {
 
 // ---------------------------------------------------------------- running the real manager
 struct World {
+    #[allow(dead_code)]
     dir: PathBuf,
     file: PathBuf,
     mgr: EncryptedKeyStorageManager,
@@ -256,7 +257,7 @@ fn gen_op(rng: &mut Rng, t: &mut Track, allow_std: bool) -> Op {
         }
         15..=16 => Op::Clear,
         17..=18 => Op::Reopen { lvl: if allow_std && rng.chance(1, 2) { 1 } else { 0 } },
-        _ => Op::Init { p: pick_pw(rng, t, rng.chance(3, 4)) },
+        _ => { let v = rng.chance(3, 4); Op::Init { p: pick_pw(rng, t, v) } }
     }
 }
 fn track(t: &mut Track, e: &Ex) {
@@ -291,6 +292,9 @@ fn script(n: u64) -> Vec<Op> {
         // weak / unconstructible new passwords leave the old one in force
         6 => vec![Op::Init { p: 9 }, Op::Init { p: 1 }, Op::Store { id: 1, sd: 1, p: 1 }, Op::Change { old: 1, new: 9 }, Op::Change { old: 1, new: 10 },
                   Op::Change { old: 1, new: 12 }, Op::Retrieve { id: 1, p: 9 }, Op::Clear, Op::Retrieve { id: 1, p: 1 }],
+        // the previous password immediately after a change, nothing in between
+        8 => vec![Op::Init { p: 2 }, Op::Store { id: 1, sd: 1, p: 2 }, Op::Retrieve { id: 1, p: 2 }, Op::Change { old: 2, new: 3 },
+                  Op::Retrieve { id: 1, p: 2 }, Op::Retrieve { id: 1, p: 3 }, Op::Change { old: 3, new: 3 }, Op::Retrieve { id: 1, p: 3 }],
         // store with a wrong password must not fill the cache or change the file
         _ => vec![Op::Init { p: 1 }, Op::Store { id: 1, sd: 1, p: 2 }, Op::Retrieve { id: 1, p: 2 }, Op::Retrieve { id: 1, p: 1 },
                   Op::Store { id: 1, sd: 2, p: 1 }, Op::Store { id: 1, sd: 3, p: 5 }, Op::Retrieve { id: 1, p: 5 }, Op::Retrieve { id: 1, p: 1 }],
@@ -300,7 +304,7 @@ fn script(n: u64) -> Vec<Op> {
 struct Plan { lvl0: u64, ops: Vec<Op>, crash: Option<(usize, Cp)>, probes: Vec<Op>, kind: String, other_level: bool }
 
 fn plan(rng: &mut Rng, idx: u64, thorough: bool) -> Plan {
-    let nscripts = 8;
+    let nscripts = 9;
     let mut t = Track::default();
     let mut ops = vec![];
     let mut kind = "random".to_string();
@@ -413,7 +417,7 @@ fn varint_len(b: &[u8], at: usize) -> usize { let mut n = 1; while b[at + n - 1]
 fn classes(b: &[u8]) -> Vec<&'static str> {
     let mut c: Vec<&'static str> = vec![];
     let mut at = 0;
-    let mut var = |name: &'static str, c: &mut Vec<&'static str>, at: &mut usize| { let n = varint_len(b, *at); for _ in 0..n { c.push(name); } *at += n; };
+    let var = |name: &'static str, c: &mut Vec<&'static str>, at: &mut usize| { let n = varint_len(b, *at); for _ in 0..n { c.push(name); } *at += n; };
     var("version", &mut c, &mut at);
     for _ in 0..4 { var("argon2_config", &mut c, &mut at); }
     for _ in 0..32 { c.push("salt"); } at += 32;
@@ -443,6 +447,11 @@ fn tamper_cases(rng: &mut Rng, base: &Path, thorough: bool, sum: &mut Summary) -
     rt.block_on(w.exec(&Op::Init { p: pr }));
     for (id, sd) in &pl { rt.block_on(w.exec(&Op::Store { id: *id, sd: *sd, p: pr })); }
     let orig = Arc::new(std::fs::read(&w.file).expect("store file"));
+    #[cfg(unix)]
+    {
+        use std::os::unix::fs::PermissionsExt;
+        if let Ok(m) = std::fs::metadata(&w.file) { sum.notes.push(format!("store file mode as created by the library: {:o}", m.permissions().mode() & 0o7777)); }
+    }
     let cls = classes(&orig);
     sum.add("store_file_bytes", orig.len() as u64);
     let mut ts: Vec<(Tamper, String)> = vec![];
@@ -515,7 +524,7 @@ fn main() {
     let thorough = args.thorough();
     let mut rng = Rng::new(args.seed);
     let mut sum = Summary::default();
-    sum.rule = "histories: initialize, then up to 8 of store / retrieve / change_password / clear_cache / reopen / re-initialize on the real manager (SecurityLevel::Fast), passwords drawn from {current, previous, near misses, two unicode spellings, 64 KiB, weak, empty and oversized (unconstructible)}, 4 seed ids incl. the empty one; 8 scripted openings aimed at the cache; about half of the histories also crash inside one file update (before / torn tmp / tmp written / renamed: directory copied from inside encrypt_and_store) and are reopened and probed. Non-trivial = at least one seed returned and one refusal; distinct = different (ops, verdicts). tamper: the real store file with one byte changed (each byte class in quick, every byte twice in thorough), truncated, extended; distinct = different (byte class, parse outcome, verdict)".into();
+    sum.rule = "histories: initialize, then up to 8 of store / retrieve / change_password / clear_cache / reopen / re-initialize on the real manager (SecurityLevel::Fast), passwords drawn from {current, previous, near misses, two unicode spellings, 64 KiB, weak, empty and oversized (unconstructible)}, 4 seed ids incl. the empty one; 9 scripted openings aimed at the cache; about half of the histories also crash inside one file update (before / torn tmp / tmp written / renamed: directory copied from inside encrypt_and_store) and are reopened and probed. Non-trivial = at least one seed returned and one refusal; distinct = different (ops, verdicts). tamper: the real store file with one byte changed (each byte class in quick, every byte twice in thorough), truncated, extended; distinct = different (byte class, parse outcome, verdict)".into();
     let base = tempfile::Builder::new().prefix("c18-").tempdir().expect("tempdir");
 
     // policy oracle: which pool passwords the real validate_password / SecureString accept
